@@ -422,15 +422,21 @@ class Session:
                     if got != op["val"]:
                         self.fail("C07", "write-landed-elsewhere", {"index_before": col_before, "row": r, "col": op["col"],
                                                                   "want_position": want, "cell_there": got})
-        elif kind == "labels" and exc == "ok" and sepfree:
+        elif kind == "labels" and exc == "ok":
             st["c07_label_checks"] += 1
+            # names that contain a separator, or end with a character of one ("a:" + "::0" reads as "a" + "::" + ":0"),
+            # make the label scheme itself ambiguous: known finding D32; for every other index column a label that does
+            # not resolve is a violation
+            sepchars = set("::<<>>")
+            strict = sepfree and all((not x) or x[-1] not in sepchars for x in col)
             for i, lab in enumerate(val):
                 try:
                     got = int(t.rows.get_index(lab))
                 except Exception as e:
                     got = exc_name(e)
                 if got != i:
-                    self.fail("C07", "label-does-not-resolve", {"index": col, "label": lab, "row": i, "got": got})
+                    self.fail("C07", "label-does-not-resolve", {"index": col, "label": lab, "row": i, "got": got},
+                              known=None if strict else "D32")
                     break
         elif kind == "derive" and exc != "ok":
             st["c14_chains"] = st.get("c14_chains", 0) + 1
@@ -638,6 +644,12 @@ def gen_sel(rng, n, col, depth=0):
 
 
 def gen_c07(rng, sess):
+    if sess.hist == 1000:
+        # known finding D32: a repeated name ending in a separator character
+        sess.step({"op": "new", "index": "name", "cols": [["name", ["a:", "b", "a:"]], ["v", [0, 1, 2]], ["w", [1, 0, 2]],
+                                                        ["s", ["s0", "s1", "s0"]]]})
+        sess.step({"op": "labels"})
+        return
     if rng.random() < 0.12:
         # an index column stored as fixed-width numpy strings: look-ups and labels only (a longer name written into such
         # a column is truncated by numpy, which the model's unbounded strings do not do)
